@@ -495,7 +495,10 @@ def run(ctx):
                                          "every displacement of one segment by <= 3 positions inside its flight for two cut conversations")
     import translate                 # decision-logic functions re-translated from the source and proved equal to the model
     _tm, _tt = translate.wire(ctx, "C05")
-    ctx.prove(["TLX.Props.C05"] + _tm)
+    import export_seg_thms, file_corr          # whole-program form (Props/ExportSeg) about connOut / framesFrom
+    ctx.prove(["TLX.Props.C05"] + _tm + export_seg_thms.MODULES)
+    ctx.require_theorems(export_seg_thms.THEOREMS_C05)
+    file_corr.correspond(ctx, ctx.n(12, 200))     # ties the whole-program model (the theorems' subject) file to file
     ctx.require_theorems(_tt)
     ctx.require_theorems(THEOREMS)
     explore(ctx)
